@@ -112,6 +112,9 @@ var NameSets = [][]string{
 	{"a\x01", "\x7f", "b\x1fc", "\U000E0001", "tab\there"},
 	{"A", "a", "aa", "Z\u2028", "\u00e9"},
 	{strings.Repeat("n", 300), "0", "00", "\\", "\""},
+	// one name long enough to push the root record beyond 64 KiB (drawn rarely,
+	// only by profiles with HugeNames)
+	{"a", strings.Repeat("h", 70000), "b", "c", ""},
 }
 
 // curNameSet is the name set of the case being generated, run or rendered
